@@ -41,7 +41,8 @@ ASSUMPTIONS = [
 S, A, B, Lst, I, F, Bo, Doc, Sec = dm.S, dm.A, dm.B, dm.Lst, dm.I, dm.F, dm.Bo, dm.Doc, dm.Sec
 DELETE = {"$op": "DELETE"}
 VALUES = ["plain", "needs quotes", "", "true", "l1\nl2", "A→B", 0, 42, -1.5, True, False, [], ["a", "b"], ["a", "b", "c", "d"], [["x"], ["y", "z"]],
-          {"k": "v"}, {"k": "v", "n": 2, "z": False, "e": "", "nil": None}, [{"k": "v"}, {"j": 1}], ["", 0, False, None]]
+          {"k": "v"}, {"k": "v", "n": 2, "z": False, "e": "", "nil": None}, [{"k": "v"}, {"j": 1}], ["", 0, False, None],
+          [{"x": None}], ["a", {"x": None}], [{"x": None}, {"z": 0}]]
 META0 = [("TYPE", S("T")), ("VERSION", S("1.0", "quoted")), ("OWNER", S("me")), ("TAGS", Lst(S("a"), S("b"), S("c")))]
 
 
@@ -54,6 +55,9 @@ def base_docs():
                               name="D", meta=META0 + [("N", ("metamap", [("A", I(1))]))], separator=True, frontmatter="name: x (y)", trailing=("the end",))))
     docs.append(("dups", Doc([A("K", I(1)), A("OTHER", S("o")), A("K", I(2)), A("TAIL", S("t"))], name="D")))
     docs.append(("nometa", Doc([A("ONLY", S("v"))], name="D")))
+    zws = dm.Zone("hard break  \n\t\n   \nlast\t", "md", "```")
+    docs.append(("verbatim", Doc([A("ALPHA", S("a")), A("ZW", zws), B("BLK", [A("Z2", zws), A("X", I(1))]), A("NUL", Lst(dm.Map(("x", dm.NULL)))), A("BETA", S("b"))], name="D",
+                                 meta=[("TYPE", S("T"))], separator=True, frontmatter="name: x  \ndescription: y\t")))
     # identifiers may contain '.', '-' and '/': a dotted META field next to its own prefix, dotted body keys
     docs.append(("dotted", Doc([A("A.B", S("ab")), A("A", S("a")), A("X-Y", I(1)), A("P/Q", S("pq"))], name="D",
                                meta=[("TYPE", S("T")), ("SPEC", S("s")), ("SPEC.VERSION", S("6.0", "quoted")), ("SPEC.VERSION.MINOR", I(1))], separator=True)))
@@ -374,6 +378,7 @@ def run(ctx):
     seqs = [(l, d, s) for l, d in docs[: (2 if ctx.quick else 4)] for s in sequences(d, k, ctx.quick)]
     ctx.explore("sequences", seqs, check_seq, chunk=40)
     cli = [(l, d, [r]) for l, d in docs[:2] for r in single_requests(d)] + [(l, d, r) for l, d in docs[:1] for r in multi_key_requests(d)[:: 4]]
+    cli += [(l, d, [r]) for l, d in docs if l in ("verbatim", "dotted") for r in single_requests(d)[:: 3]]      # documents whose unnamed lines a re-format would touch
     ctx.explore("cli_changes", cli, check_seq_cli, chunk=40)
     ctx.explore("absent_positions", absent_cases(), check_absent, chunk=4)
     sl.cleanup()
